@@ -331,9 +331,9 @@ Definition row_ok (t : table) (k : opkey) : bool :=
   | Some (m, ex) => meth_eqb m (expected k) && ex
   | None => false
   end.
-(* KNOWN, unrepaired: the parser delivers Modelica's inequality as "<>", and OP_MAP has no such
+(* Repaired in e57542a; before it: the parser delivers Modelica's inequality as "<>", and OP_MAP has no such
    key (its "!=" key is not a Modelica token), so `a <> b` ends in get_function("<>") ->
-   "Unknown function".  K_ne is the row for "<>": absent on the unrepaired tree.  The core side
+   "Unknown function".  K_ne is the row for "<>": absent before the repair.  The core side
    condition therefore covers every key but K_ne and asks of K_ne only that, IF it is present
    and usable, it is the right method; totality additionally needs ne_ok or a `<>`-free input. *)
 Definition core_keys : list opkey :=
@@ -466,7 +466,7 @@ Definition seqn := (expr * expr)%type.               (* lhs = rhs *)
 Inductive eqn :=
 | QSimple (s : seqn)
 | QIf (brs : list (expr * list seqn)) (els : list seqn)
-| QFor (lo hi : Z) (body : list seqn).             (* for i in lo:hi loop body end for *)
+| QFor (lo st hi : Z) (body : list seqn).          (* for i in lo:st:hi loop body end for; lo:hi is st = 1 *)
 
 (* CasADi residual blocks *)
 Inductive cares :=
@@ -495,16 +495,27 @@ Fixpoint zrange (lo : Z) (n : nat) : list Z :=
   match n with O => [] | S n' => lo :: zrange (lo + 1) n' end.
 Definition loop_values (lo hi : Z) : list Z := zrange lo (Z.to_nat (hi + 1 - lo)).
 
-(* three-part ranges.  np.arange for a positive step: *)
+(* np.arange(start, stop, step) on integers: ceil((stop - start) / step) values when that is
+   positive, none otherwise (step = 0 raises; tr_eqn turns that into Err) *)
 Definition arange (start stop step : Z) : list Z :=
-  if (0 <? step)%Z
-  then map (fun k => (start + Z.of_nat k * step)%Z) (seq 0 (Z.to_nat ((stop - start + step - 1) / step)))
-  else [].
-(* `a:b:c` as the code reads it: parser.py exitSimple_expression builds
-   Slice(start=a, stop=b, step=c), ForLoop.__init__ then arange(start, stop + step, step) *)
-Definition impl_range3 (a b c : Z) : list Z := arange a (b + c) c.
-(* `a:b:c` in Modelica: start a, step b, stop c (inclusive) *)
-Definition modelica_range3 (a b c : Z) : list Z := arange a (c + 1) b.
+  let n := if (0 <? step)%Z then ((stop - start + step - 1) / step)%Z
+           else if (step <? 0)%Z then ((start - stop + (- step) - 1) / (- step))%Z
+           else 0%Z in
+  map (fun k => (start + Z.of_nat k * step)%Z) (seq 0 (Z.to_nat n)).
+(* `a:s:b` as the code reads it since 3facb7b: parser.py exitSimple_expression builds
+   Slice(start=a, step=s, stop=b); ForLoop.__init__ takes arange(start, stop + 1, step) for a
+   positive and arange(start, stop - 1, step) for a negative step *)
+Definition range_values (lo st hi : Z) : list Z :=
+  arange lo (hi + (if (0 <? st)%Z then 1 else -1))%Z st.
+(* `a:s:b` in Modelica (spec 10.4.3): a, a+s, ..., a+n*s with n = floor((b-a)/s); empty when
+   s > 0 and a > b, or s < 0 and a < b *)
+Definition modelica_range (lo st hi : Z) : list Z :=
+  if ((0 <? st)%Z && (hi <? lo)%Z) || ((st <? 0)%Z && (lo <? hi)%Z) then []
+  else map (fun k => (lo + Z.of_nat k * st)%Z) (seq 0 (Z.to_nat ((hi - lo) / st + 1))).
+(* the reading before 3facb7b (second expression = stop, third = step; arange(start, stop + step,
+   step)) — kept only for the refutation witness of the pre-fix tree *)
+Definition old_range3 (a b c : Z) : list Z := arange a (b + c) c.
+Definition E_step := 5%nat.       (* zero step: np.arange raises ZeroDivisionError *)
 
 Definition tr_eqn (q : eqn) : res cares :=
   match q with
@@ -528,9 +539,10 @@ Definition tr_eqn (q : eqn) : res cares :=
         | Err w => Err w
         end
       else Err E_shape
-  | QFor lo hi body =>
+  | QFor lo st hi body =>
+      if (st =? 0)%Z then Err E_step else
       match tr_seqns body with
-      | Ok cb => Ok (RMap (loop_values lo hi) cb)
+      | Ok cb => Ok (RMap (range_values lo st hi) cb)
       | Err w => Err w
       end
   end.
@@ -580,10 +592,10 @@ Definition m_res (q : eqn) (rho : menv) : option (list (option Qc)) :=
              | _ => None
              end
          end) brs
-  | QFor lo hi body =>
-      (* the flat equations body[i := v] for v = lo..hi, listed equation-major (the order in
-         which the generator emits them) *)
-      Some (flat_map (fun s => map (fun i => m_res1 s (with_mi rho i)) (loop_values lo hi)) body)
+  | QFor lo st hi body =>
+      (* the flat equations body[i := v] for v in the Modelica range lo:st:hi, listed
+         equation-major (the order in which the generator emits them) *)
+      Some (flat_map (fun s => map (fun i => m_res1 s (with_mi rho i)) (modelica_range lo st hi)) body)
   end.
 
 End WithFun.
